@@ -1,6 +1,7 @@
 import IpaVerif.Model.Util
 import IpaVerif.Model.Prss
 import IpaVerif.Model.UsedSetAtomic
+import IpaVerif.Model.CrossShard
 /-! Line-protocol handlers for property C06 (model side) and the spec-side oracle. Import-free.
 
 Requests
@@ -9,6 +10,7 @@ Requests
   c06.agree seed gate index Z chunks → agree <blocks> distinct | panic:…
   c06.negotiate seed                 → agree <blocks> distinct
   c06.xshard seed shards             → agree <values>
+  c06.xfault seed shards f1/f2/f3    → H1:<o|e per shard>:<distinct> H2:… H3:… nb=ok   (scripted leaders: ok | d:<followers reached> | d:-)
   c06.noreuse dzkp api ty n per seed → ok
   c06.race side T R seed             → accepted=<R> rounds=<R>   (T threads draw the same fresh index, R rounds)
   c06.used op,op,…                   → ok | panic:…     op = ib:gate:index:Z:chunks | il:… | ir:… | sq:gate:n
@@ -23,6 +25,22 @@ def parseOp (s : String) : Option Op :=
   | ["ir", g, i, z, c] => do pure (.indexedOne g false (← i.toNat?) (← z.toNat?) (← c.toNat?))
   | ["sq", g, n] => do pure (.sequential g (← n.toNat?))
   | _ => none
+
+/-- `ok` → every follower is reached; `d:<j,k,…>` → the listed ones; `d:-` → none -/
+def parseFault (s : String) : Option (Nat → Bool) :=
+  if s == "ok" then some (fun _ => true)
+  else if s == "d:-" then some (fun _ => false)
+  else if s.startsWith "d:" then do
+    let l ← ((s.drop 2).toString.splitOn ",").mapM (·.toNat?)
+    pure (fun j => l.contains j)
+  else none
+
+/-- one helper: outcomes of shards `0..n-1` under the fault pattern (abstract per-shard seeds `10 + j`, pairwise
+different as PRSS values of different shards are) -/
+def xfaultHelper (n : Nat) (deliver : Nat → Bool) : String :=
+  let outs := (List.range n).map (IpaVerif.CrossShard.shardOutcome (fun j => 10 + j) deliver)
+  let marks := String.ofList (outs.map fun o => match o with | .ok _ => 'o' | .endOfStream => 'e')
+  s!"{marks}:{IpaVerif.CrossShard.distinctOk outs}"
 
 def handle (toks : List String) : Option String :=
   match toks with
@@ -52,6 +70,15 @@ def handle (toks : List String) : Option String :=
   | ["c06.xshard", _seed, shards] => some <| (do
       let n ← shards.toNat?
       pure s!"agree {3 * n}").getD "bad-request"
+  | ["c06.xfault", _seed, shards, scripts] => some <| (do
+      let n ← shards.toNat?
+      match scripts.splitOn "/" with
+      | [a, b, c] =>
+        let fa ← parseFault a
+        let fb ← parseFault b
+        let fc ← parseFault c
+        pure s!"H1:{xfaultHelper n fa} H2:{xfaultHelper n fb} H3:{xfaultHelper n fc} nb=ok"
+      | _ => none).getD "bad-request"
   | ["c06.noreuse", "dzkp", _api, _ty, _n, _per, _seed] => some "ok"
   | ["c06.noreuse", "mac", _n, _seed] => some "ok"
   | ["c06.race", side, threads, rounds, _seed] => some <| (do
@@ -95,6 +122,24 @@ def oracle (toks : List String) (impl : String) : Option String :=
       else pure (impl.startsWith "panic")) "neighbouring helpers derived different values, or values repeated across (step, index, offset), or an offset above the cap was served"
   | ["c06.negotiate", _] => verdict (some (impl.startsWith "agree" && impl.endsWith "distinct")) "negotiated endpoints disagree"
   | ["c06.xshard", _, _] => verdict (some (impl.startsWith "agree")) "shards of a helper / neighbouring helpers disagree on cross-shard randomness"
+  | ["c06.xfault", _, _, scripts] =>
+    -- spec, from the response alone: every shard that comes out Ok holds ONE stream per helper (the leader's),
+    -- consistent with every Ok shard of the neighbouring helpers; fault-free runs succeed everywhere
+    if impl.startsWith "panic" || impl.startsWith "timeout" then some s!"fails {impl}" else
+    match impl.splitOn " " with
+    | [h1, h2, h3, nb] =>
+      let bad := [h1, h2, h3].filterMap fun h => match h.splitOn ":" with
+        | [name, marks, d] => match d.toNat? with
+          | some k => if k > 1 then some s!"shards of helper {name} hold {k} different cross-shard streams (outcomes {marks}: o = Ok, e = EndOfStream)" else none
+          | none => some s!"malformed {h}"
+        | _ => some s!"malformed {h}"
+      match bad with
+      | b :: _ => some s!"fails {b}"
+      | [] =>
+        if nb != "nb=ok" then some "fails an Ok shard of one helper and an Ok shard of its neighbour disagree on the shared cross-shard stream"
+        else if scripts == "ok/ok/ok" && (impl.contains 'e' || impl.contains 'x') then some "fails a fault-free cross-shard setup failed on some shard"
+        else some "holds"
+    | _ => some s!"fails malformed response {impl}"
   | "c06.noreuse" :: _ =>
       verdict (some (impl == "ok")) "a multi-batch protocol run drew a (step, index, offset) twice (debug-build detector fired) or did not complete"
   | ["c06.race", _side, _threads, rounds, _seed] =>
